@@ -61,7 +61,7 @@ Fixpoint join_text (cs : list tok) : list Z :=
 Definition comment_group (prev : option tok) (run : list tok) : option (list Z * Z) :=
   match collect [] run with
   | [] => None
-  | c0 :: _ as cs =>
+  | (c0 :: _) as cs =>
       let dropped := match prev with
                      | Some pt => line (tstart c0) =? line (tend pt)
                      | None => false
